@@ -42,7 +42,15 @@ def canonical_of(content: str):
 # Sandboxes
 # ------------------------------------------------------------------------------------------------------
 
-BASE = os.environ.get("VERIF_FS_TMP", "/tmp/verif-fs")
+def _base():
+    b = os.environ.get("VERIF_FS_TMP")
+    if b:
+        return b
+    # tmpfs when there is one: fsync is free there, and nothing of the checks depends on a real disk
+    return "/dev/shm/verif-fs" if os.path.isdir("/dev/shm") and os.access("/dev/shm", os.W_OK) else "/tmp/verif-fs"
+
+
+BASE = _base()
 
 
 class Sandbox:
